@@ -1,4 +1,4 @@
-import TinodeVerif.Model.TopicFnd
+import TinodeVerif.Model.TopicUser
 import TinodeVerif.Driver.Wire
 /-! Driver for the world stream (`TestVerifWorld`): one op per line, one output line per op, rendered exactly like the
 Go harness renders the real frames and state. -/
@@ -136,7 +136,7 @@ def render (pre : World) (st : WSt) (c : Ctx) (ad : Addr := {}) : String :=
       (fun f => s!"{s.sid}<-{f}"))
   -- sessions created before this op only; all frames belong to known sessions
   -- (the order in which the topics learn of a timer or a dropped connection is not defined: those frames are compared sorted, as rendered)
-  let frames := if ad.op = "drop" ∨ ad.op = "fg" then frames.mergeSort (· ≤ ·) else frames
+  let frames := if ad.op = "drop" ∨ ad.op = "fg" ∨ ad.op = "deluser" then frames.mergeSort (· ≤ ·) else frames
   let parts := frames ++ c.pushes ++ [s!"calls={",".intercalate c.calls}"] ++ cacheDigest c.w ++ storeDigest c.w ++ sessDigest c.w
   " | ".intercalate parts
 
@@ -177,7 +177,7 @@ def step (st : WSt) (ws : List String) : Option (WSt × String) :=
   | ["crash", k] => (decNat k).map (fun k => ({ st with crashK := k }, "ok"))
   | "restart" :: _ =>
     let store := st.snap.getD st.w.store
-    let w := { st.w with store := store, live := [], sess := st.w.sess.map (fun s => { s with subs := [], out := false }) }
+    let w := { st.w with store := store, live := [], sess := st.w.sess.map (fun s => { s with subs := [], out := st.w.gone.contains s.uid }) }
     let st := { st with w := w, snap := none }
     some (st, render w st { w := w })
   | "userstate" :: u :: rest =>
@@ -202,10 +202,12 @@ def step (st : WSt) (ws : List String) : Option (WSt × String) :=
       let viaChn : Bool := match rest with | t :: _ => t.startsWith "chn:" | [] => false
       -- the fault plan is armed for client requests only: a timer or a dropped connection leaves it for the next request
       let ev : Bool := op = "fg" ∨ op = "drop"
-      let c0 : Ctx := if ev then { w := st.w } else { w := st.w, failK := st.failK, crashK := st.crashK }
+      let c0 : Ctx := if ev then { w := st.w } else { w := st.w, failK := st.failK, crashK := if op = "deluser" then 0 else st.crashK }
       let c : Option Ctx :=
         if s.out ∧ (parseAs m).isNone ∧ op ≠ "fg" ∧ op ≠ "drop" then
-          some (c0.loggedOut sid (if op = "newgrp" then (if kvGet m "chan" = "1" then "?nch" else "?new") else rest.headD "") (op = "note")) else
+          some (c0.loggedOut sid (if op = "deluser" then "-" else if op = "newgrp" then (if kvGet m "chan" = "1" then "?nch" else "?new") else rest.headD "") (op = "note")) else
+        -- {del what=user} is the session's own business: nobody is impersonated
+        if op = "deluser" then some (c0.opDelUser s (kvGet m "user") (kvGet m "hard" = "1")) else
         match resolveActor c0 s (parseAs m) with
         | .error c => some c
         | .ok a =>
@@ -302,7 +304,7 @@ def step (st : WSt) (ws : List String) : Option (WSt × String) :=
       | some c =>
         let c := c.deliverAll
         -- the order in which the topics learn about a dropped connection is not defined: frames are compared sorted
-        let c := if op = "drop" ∨ op = "fg" then { c with frames := c.frames.mergeSort (fun a b => s!"{a.1}<-{a.2}" ≤ s!"{b.1}<-{b.2}") } else c
+        let c := if op = "drop" ∨ op = "fg" ∨ op = "deluser" then { c with frames := c.frames.mergeSort (fun a b => s!"{a.1}<-{a.2}" ≤ s!"{b.1}<-{b.2}") } else c
         let stOut := { st with w := c.w }
         let line := render st.w stOut c { actor := sid, viaChn := viaChn, op := op, what := (rest.getD 1 "") }
         -- the crash snapshot, if one was taken during this op, is what an immediately following `restart` restores
